@@ -62,6 +62,7 @@ var cycle = []combo{
 	{"stop", ""}, {"stop", ""}, {"stop", "parked"},
 	{"stopflush", "beforeClose"},
 	{"autodestroy", "inflight"}, {"autodestroy", "inflight"}, {"idle", "inflight"},
+	{"autodestroy", "tail"}, {"autodestroy", "tail"}, {"idle", "tail"},
 }
 
 func genCase(r *rand.Rand, idx int) caseSpec {
@@ -177,6 +178,16 @@ func genCase(r *rand.Rand, idx int) caseSpec {
 			cs.Writers = append(cs.Writers, randWriter(4))
 		}
 		cs.Reopen = "restart"
+	}
+	if cs.Forced == "tail" {
+		// one or two racers on keys the trigger does not address
+		if len(cs.Writers) > 2 {
+			cs.Writers = cs.Writers[:2]
+		}
+		for i := range cs.Writers {
+			cs.Writers[i].Key = keyFor(cs.Writers[i].Kind, 5+r.IntN(3))
+		}
+		cs.TickK = 0
 	}
 	if cs.Forced == "inflight" {
 		// exactly one request in flight, on a key that was never written before: the racer is held
@@ -526,6 +537,18 @@ func TestCheck(t *testing.T) {
 		have := probe.HookHits["hydra.summon.beforeRelease"] > 0
 		c.Extra("hook_present:hydra.summon.beforeRelease", have)
 		c.Extra("hook_present:swamp.closeListener.afterRead", probe.HookHits["swamp.closeListener.afterRead"] > 0)
+		haveTail := probe.HookHits["swamp.teardown.afterCancel"] > 0
+		c.Extra("hook_present:swamp.teardown.afterCancel", haveTail)
+		if !haveTail {
+			// the tail of an idle close has no log line to hang on; without the proposed call site the
+			// idle/tail schedules cannot be placed and run as natural races
+			for i := range cases {
+				if cases[i].Scen == "idle" && cases[i].Forced == "tail" {
+					cases[i].Forced = ""
+					cases[i].Name += "-as-natural"
+				}
+			}
+		}
 		if !have {
 			conv := 0
 			for i := range cases {
